@@ -4,7 +4,9 @@ use common_lang_types::{
     Diagnostic, DiagnosticResult, EmbeddedLocation, EntityName, SelectableName,
     WithLocationPostfix, WithNonFatalDiagnostics,
 };
-use graphql_lang_types::from_graphql_directives;
+use graphql_lang_types::{
+    GraphQLTypeSystemDefinition, GraphQLTypeSystemExtensionOrDefinition, from_graphql_directives,
+};
 use intern::Lookup;
 use intern::string_key::Intern;
 use isograph_lang_types::{
@@ -22,7 +24,7 @@ use isograph_schema::{
 use prelude::{ErrClone, Postfix};
 
 use crate::{
-    GraphQLAndJavascriptProfile, parse_graphql_schema,
+    GraphQLAndJavascriptProfile, GraphQLRootTypes, parse_graphql_schema,
     process_type_system_definition::{
         process_graphql_type_system_document, process_graphql_type_system_extension_document,
     },
@@ -46,9 +48,36 @@ pub(crate) fn parse_type_system_document(
     let (type_system_document, type_system_extension_documents) =
         parse_graphql_schema(db).to_owned()?;
 
+    // The __refetch fields are rooted at the query type, which the schema definition names. That
+    // definition can follow the types, or be part of an extension document.
+    let query_root = type_system_document
+        .0
+        .iter()
+        .map(|definition| &definition.item)
+        .chain(
+            type_system_extension_documents
+                .values()
+                .flat_map(|document| document.lookup(db).0.iter())
+                .filter_map(|item| match &item.item {
+                    GraphQLTypeSystemExtensionOrDefinition::Definition(definition) => {
+                        Some(definition)
+                    }
+                    GraphQLTypeSystemExtensionOrDefinition::Extension(_) => None,
+                }),
+        )
+        .find_map(|definition| match definition {
+            GraphQLTypeSystemDefinition::SchemaDefinition(schema_definition) => {
+                Some(schema_definition.query.map(|query| query.item))
+            }
+            _ => None,
+        })
+        .flatten()
+        .unwrap_or_else(|| GraphQLRootTypes::default().query);
+
     process_graphql_type_system_document(
         db,
         type_system_document,
+        query_root,
         &mut graphql_root_types,
         &mut outcome,
         &mut directives,
@@ -62,6 +91,7 @@ pub(crate) fn parse_type_system_document(
             type_system_extension_document
                 .to_owned(db)
                 .note_todo("Don't clone, use a MemoRef"),
+            query_root,
             &mut graphql_root_types,
             &mut outcome,
             &mut directives,
